@@ -68,3 +68,10 @@ Lemma wedge_split_wellformed :
   forallb (fun T => Z.eqb (Z.abs (tet_det gen_refwedge_p T)) 1) gen_wedge_split = true /\
   length gen_wedge_split = 3 /\ length gen_refwedge_p = 6.
 Proof. vm_compute. repeat split. Qed.
+
+(* conformity certificate of both splits on the regenerated templates and reference coordinates (finite):
+   inner faces are shared by exactly two children, outer faces lie in a boundary plane of the reference cell *)
+Lemma tet_splits_conforming :
+  conforming_split gen_refhex_p cube_planes gen_hex_split = true /\
+  conforming_split gen_refwedge_p prism_planes gen_wedge_split = true.
+Proof. vm_compute. split; reflexivity. Qed.
